@@ -141,6 +141,10 @@ var schemas = map[string][]field{
 	"AFTOperationB": {{"NetworkInstance", "NetworkInstance", kStr}, {"Entry", "Entry", kind{k: "oneof", s: "EntryB"}}, {"ElectionId", "ElectionId", kPtr("Uint128")}},
 	"AFTEntryB":     {{"NetworkInstance", "NetworkInstance", kStr}, {"Entry", "Entry", kind{k: "oneof", s: "EntryB"}}},
 	"FlushRequestB": {{"Election", "Election", kind{k: "oneof", s: "FlushElec"}}, {"NetworkInstance", "NetworkInstance", kind{k: "oneof", s: "FlushNI"}}},
+	"gRIBIGet":          {{"pb", "pb", kPtrNN("GetRequestG")}},
+	"gRIBIFlush":        {{"pb", "pb", kPtrNN("FlushRequestB")}},
+	"ModifyRequestE":    {{"ElectionId", "ElectionId", kPtr("Uint128")}},
+	"ReqTok":            {{"Tag", "Tag", kNat}},
 	"ModifyRequestF":    {{"Operation", "Operation", kind{k: "list", s: "AFTOperation", elemNN: true}}},
 	"gRIBIConnection":   {{"redundMode", "redundMode", kEnum}},
 	"ModifyRequest":     {{"Params", "Params", kPtr("SessionParameters")}, {"ElectionId", "ElectionId", kPtr("Uint128")}, {"Operation", "Operation", kPtr("Unit")}},
@@ -219,6 +223,7 @@ var leanStruct = map[string]string{
 	"AFTResultList": "(List AFTResultC)", "Bool": "Bool", "pendingQueue": "PendingQueue", "pendingEntry": "PendingEntry", "RibOpResult": "RibOpResult", "OrigTop": "OrigTop", "OrigNHGMember": "OrigNHGMember", "OrigNHG": "OrigNHG", "KeyRIB": "KeyRIB", "GPrefix": "GPrefix", "GLabel": "GLabel", "GId": "GId", "GIndex": "GIndex", "GAFTEntry": "GAFTEntry", "cache": "GetCache", "GetResponseG": "GetResponseG", "ReconEntS": "ReconEnt", "ReconEntN": "ReconEnt", "ReconAfts": "ReconAfts", "ReconNI": "ReconNI", "ReconOp": "ReconOp", "TblEntry": "TblEntry", "NewElem": "NewElem", "NewAfts": "NewAfts", "NewRIB": "NewRIB", "StringValue": "StringValue", "UintValue": "UintValue", "NewTop": "NewTop", "NewNHGMember": "NewNHGMember", "NewNHG": "NewNHG", "FlNHG": "FlNHG", "HolderG": "HolderG", "ErrView": "ErrView", "ClientErrG": "ClientErrG", "GStatus": "GStatus", "StrBox": "String", "ErrOptG": "ErrOptG", "UintBox": "Nat", "FlushErr": "FlushErr", "Nat": "Nat", "Status": "Status",
 	"BytesValue": "BytesValue", "TopEntryB": "TopEntryB", "Ipv4KeyB": "Ipv4KeyB", "Ipv6KeyB": "Ipv6KeyB", "PoppedU": "PoppedU", "LabelEntryB": "LabelEntryB", "LabelKeyB": "LabelKeyB", "NhgNhB": "NhgNhB", "NhgNhKeyB": "NhgNhKeyB", "NhgPayloadB": "NhgPayloadB", "NhgKeyB": "NhgKeyB", "AFTOperationB": "AFTOperationB", "AFTEntryB": "AFTEntryB", "FlushRequestB": "FlushRequestB",
 	"BoolValue": "BoolValue", "IfRefB": "IfRefB", "IpInIpB": "IpInIpB", "PushedU": "PushedU", "NhPayloadB": "NhPayloadB", "NhKeyB": "NhKeyB", "nextHopEntry": "NhBuilder",
+	"ModifyRequestE": "ModifyRequestE", "ReqTok": "ReqTok", "gRIBIGet": "GetBuilder", "gRIBIFlush": "FlushBuilder",
 	"ipv4Entry": "Ipv4Builder", "ipv6Entry": "Ipv6Builder", "labelEntry": "LabelBuilder", "nextHopGroupEntry": "NhgBuilder",
 }
 
@@ -1239,6 +1244,8 @@ func trExpr(e ast.Expr, en env) val {
 // belongs to is identified by ID; error texts are not compared)
 var ignoredFields = map[string]map[string]bool{
 	"RibOpResult": {"Op": true, "Error": true},
+	// the back pointer to the client that created the request builder
+	"gRIBIGet": {"parent": true}, "gRIBIFlush": {"parent": true}, "gRIBIModify": {"parent": true},
 }
 
 // oneofMember: the case of a protobuf oneof whose Go wrapper type is goType, and the oneof's name
@@ -4582,7 +4589,7 @@ func trReturn(r *ast.ReturnStmt, en env) string {
 			}
 		}
 	}
-	if cur != nil && cur.builder && cur.recvName != "" && len(r.Results) == 1 && len(cur.rets) == 0 {
+	if cur != nil && cur.builder && cur.recvName != "" && len(r.Results) == 1 && (len(cur.rets) == 0 || cur.tbFatal) {
 		// return i: the builder itself (the chain goes on with the same state)
 		if id, ok := r.Results[0].(*ast.Ident); !ok || id.Name != cur.recvName {
 			fail(r.Pos(), "a builder method returns %s, not its receiver", render(r.Results[0]))
